@@ -874,7 +874,7 @@ def _run(ctx):
 
     # ---- JSON fault enumeration
     n_bases = 5 if quick else 12
-    n_double = 1100 if quick else None
+    n_double = 900 if quick else None
     bases = []
     for b in range(n_bases):
         dens = [0.6, 1.0, 0.3, 0.0, 0.8][b % 5]
@@ -921,7 +921,7 @@ def _run(ctx):
     # ---- HDF5: written files valid; fault enumeration
     base_path = os.path.join(TMP, F_BASE_H5)
     n_hb = 3 if quick else 6
-    n_hdouble = 250 if quick else None
+    n_hdouble = 200 if quick else None
     hbases = []
     for b in range(n_hb):
         while True:
